@@ -24,7 +24,11 @@ func encSpace(c *work.Ctx, types []reflect.Type, D int, opts *universe.ValOpts, 
 			c.NotExhaustive(fmt.Sprintf("deadline reached at type %d of %d", ti, len(types)))
 			return
 		}
-		ex := &explore.Explorer{Bound: thoroughBound(D, ti, c.NShards)}
+		bound := D
+		if !c.Quick() {
+			bound = thoroughBound(D, ti, c.NShards)
+		}
+		ex := &explore.Explorer{Bound: bound}
 		ex.Run(func(ch *explore.Chooser) {
 			v := universe.Build(t, ch, opts, 0)
 			id := fmt.Sprintf("type#%d %s choices=%v", ti, t.String(), ch.Choices())
